@@ -33,7 +33,8 @@
 //!
 //! When allocating a page:
 //! 1. If the current trunk has free pages, pop one from the array
-//! 2. If the current trunk is empty but has a next_trunk, move to that trunk
+//! 2. If the current trunk is empty, hand out the trunk page itself (a trunk is
+//!    a released page and is counted in free_count) and move to next_trunk
 //! 3. If no free pages exist, return None (caller must grow the file)
 //!
 //! When releasing a page:
@@ -204,6 +205,13 @@ impl Freelist {
             return Ok(None);
         }
 
+        // Page 0 is the file header, never a trunk: no trunk chain means no free
+        // pages, whatever count was handed to `with_head`/`set_head`.
+        if self.head_page == 0 {
+            self.free_count = 0;
+            return Ok(None);
+        }
+
         let page_data = storage.page_mut(self.head_page)?;
         let trunk_offset = PAGE_HEADER_SIZE;
 
@@ -213,13 +221,15 @@ impl Freelist {
         };
 
         if count == 0 {
-            if next_trunk == 0 {
-                self.head_page = 0;
-                self.free_count = 0;
-                return Ok(None);
-            }
+            // A trunk without entries is itself a free page (it was counted in
+            // `free_count` when it was released): hand it out and move on.
+            let page_no = self.head_page;
             self.head_page = next_trunk;
-            return self.allocate(storage);
+            self.free_count -= 1;
+            if next_trunk == 0 {
+                self.free_count = 0;
+            }
+            return Ok(Some(page_no));
         }
 
         let entry_index = (count - 1) as usize;
@@ -245,9 +255,8 @@ impl Freelist {
         trunk.set_count(count - 1);
         self.free_count -= 1;
 
-        if count - 1 == 0 {
-            self.head_page = next_trunk;
-        }
+        // The head trunk stays in place even when this was its last entry: the
+        // next allocate returns the (now empty) trunk page itself.
 
         Ok(Some(page_no))
     }
